@@ -5,6 +5,8 @@ import Driver.C08
 import Driver.Registry
 import Driver.C16
 import Driver.C20
+import Driver.C12
+import Driver.C05
 
 def main (args : List String) : IO UInt32 := do
   match args with
@@ -18,6 +20,8 @@ def main (args : List String) : IO UInt32 := do
       | "registry" => Driver.Registry.run ops impl
       | "c16" => Driver.C16.run ops impl
       | "c20" => Driver.C20.run ops impl
+      | "c12" => Driver.C12.run ops impl
+      | "c05" => Driver.C05.run ops impl
       | _ => do IO.eprintln s!"unknown model {model}"; return 2
     return (if t.diffs == 0 && t.oracleFails == 0 then 0 else 1)
   | _ =>
